@@ -1,12 +1,12 @@
 (* C01, part c01json - the JSON/map form of serix round-trips: MapEncode/JSONEncode then MapDecode/JSONDecode
    gives back every value that form can express.  Statements only.  [jencode]/[jdecode true] model
-   map_encode.go / map_decode.go as they are now (after commits 4262ca0, 81cafca, 8fc6fcd, 9d20a03, bb76e84, 18e6a53, b4a46ea, 74faee1). *)
+   map_encode.go / map_decode.go as they are now (after commits 4262ca0, 81cafca, 8fc6fcd, 9d20a03, bb76e84, 18e6a53, b4a46ea, 74faee1, 83b7f6c, c9f8064). *)
 From Coq Require Import ZArith NArith List Bool String.
 From Verif.C01_SerixJson Require Import Model Ind ProofsLeaf ProofsC01 ProofsC02.
 Import ListNotations.
 
-(* For EVERY schema of the modelled fragment (bool; int8..uint64; string; []byte; [n]byte, also with a registered
-   object code (object form) and behind a pointer; *big.Int; time.Time;
+(* For EVERY schema of the modelled fragment (bool; int8..uint64; string; []byte and [n]byte, also with a registered
+   object code (object form), [n]byte also behind a pointer; *big.Int; time.Time;
    structs by value or pointer with required / optional / omitempty / inlined fields, embedded structs and object
    codes; slices; arrays; maps;
    interfaces with registered alternatives - nested arbitrarily) and EVERY value of that type.
@@ -14,8 +14,8 @@ Import ListNotations.
    none equal to "type" next to an object code, inlined fields are structs, uint32 codes, map
    keys of string/int64/uint64/time/[n]byte type, 'optional' only on nil-able fields, 'omitempty' not on maps,
    arrays and by-value structs (where the model's identification of nil and empty collections would blur
-   reflect.IsZero), alternatives are value
-   structs with their own distinct codes) and [has_type] (integers within their width, big.Int in [0, 2^256),
+   reflect.IsZero), alternatives are structs or
+   byte arrays - by value or behind a pointer - with their own distinct object codes) and [has_type] (integers within their width, big.Int in [0, 2^256),
    time within [0, MaxInt64] ns - outside, TimeToUint64 clamps by design -, distinct map keys, non-optional
    pointers and interfaces non-nil; an 'omitempty' field may also hold its empty value whatever it is: the zero
    time.Time, a nil pointer / interface / *big.Int).  NaN/Inf do not arise: float fields are outside the fragment. *)
@@ -65,7 +65,12 @@ Definition ex_schema : schema :=
      ("om", FOmit, SNum U8); ("os", FOmit, SSlice SString); ("ot", FOmit, STime); ("op", FOmit, SU256);
      ("", FInline, SStruct false None [("ea", FReq, SNum I8); ("", FInline, SStruct true None [("eb", FReq, SBool)])]);
      ("ad", FReq, SByteArrO false 2 (Some 5%N) "pubKeyHash"); ("pa", FOptional, SByteArrO true 2 (Some 5%N) "pubKeyHash");
-     ("pb", FReq, SByteArrO true 1 None "data")]%string.
+     ("pb", FReq, SByteArrO true 1 None "data");
+     ("i2", FReq, SIface [(7%N, ex_alt); (8%N, SStruct true (Some 8%N) [("w", FReq, SBool)]);
+                          (5%N, SByteArrO false 2 (Some 5%N) "pubKeyHash")]);
+     ("i3", FReq, SIface [(7%N, ex_alt); (8%N, SStruct true (Some 8%N) [("w", FReq, SBool)]);
+                          (5%N, SByteArrO false 2 (Some 5%N) "pubKeyHash")]);
+     ("cb", FOmit, SBytesO 6 "hx")]%string.
 Definition ex_value : value :=
   VList [VInt (-128); VInt (-9223372036854775808); VInt 18446744073709551615; VStr "hi"; VBool true;
          VStr "ab"; VStr "xy"; VInt 255; VInt 5; VNil;
@@ -75,7 +80,8 @@ Definition ex_value : value :=
          VIface 7 (VList [VInt 65535]);
          VInt 0; VList [VStr "z"]; VInt zero_time; VNil;
          VList [VInt 4; VPtr (VList [VBool true])];
-         VStr "ab"; VPtr (VStr "cd"); VPtr (VStr "e")]%string.
+         VStr "ab"; VPtr (VStr "cd"); VPtr (VStr "e");
+         VIface 8 (VPtr (VList [VBool false])); VIface 5 (VStr "gh"); VStr "i"]%string.
 
 Example C01_json_roundtrip_nonvacuous :
   wf_schema ex_schema = true /\ has_type ex_schema ex_value = true /\
@@ -89,7 +95,10 @@ Example C01_json_roundtrip_nonvacuous :
               ("if", JObj [("type", JNum 7); ("q", JNum 65535)]);
               ("os", JArr [JStr "z"]); ("ea", JNum 4); ("eb", JBool true);
               ("ad", JObj [("type", JNum 5); ("pubKeyHash", JStr "0x6162")]);
-              ("pa", JObj [("type", JNum 5); ("pubKeyHash", JStr "0x6364")]); ("pb", JStr "0x65")]%string).
+              ("pa", JObj [("type", JNum 5); ("pubKeyHash", JStr "0x6364")]); ("pb", JStr "0x65");
+              ("i2", JObj [("type", JNum 8); ("w", JBool false)]);
+              ("i3", JObj [("type", JNum 5); ("pubKeyHash", JStr "0x6768")]);
+              ("cb", JObj [("type", JNum 6); ("hx", JStr "0x69")])]%string).
 Proof. vm_compute. repeat split. Qed.
 
 (* The pinned code did not round-trip arrays of non-byte elements (JSON analogue of D01a, repaired by 81cafca),
